@@ -177,6 +177,35 @@ fn squeeze(s: &str) -> String {
     s.chars().filter(|c| !c.is_whitespace()).collect()
 }
 
+/// squeeze + explicit generic arguments (`::<..>`) removed: `Signal::<T>::new_sync(` and `Signal::new_sync(` are one shape
+fn squeeze_nt(s: &str) -> String {
+    let t: Vec<char> = squeeze(s).chars().collect();
+    let mut out = String::new();
+    let mut i = 0;
+    while i < t.len() {
+        if t[i] == ':' && i + 2 < t.len() && t[i + 1] == ':' && t[i + 2] == '<' {
+            let mut depth = 0i32;
+            let mut j = i + 2;
+            while j < t.len() {
+                if t[j] == '<' {
+                    depth += 1;
+                } else if t[j] == '>' && (j == 0 || t[j - 1] != '-') {
+                    depth -= 1;
+                    if depth == 0 {
+                        break;
+                    }
+                }
+                j += 1;
+            }
+            i = j + 1;
+            continue;
+        }
+        out.push(t[i]);
+        i += 1;
+    }
+    out
+}
+
 fn expr_mentions_ident(e: &syn::Expr, name: &str) -> bool {
     struct V<'a> {
         name: &'a str,
@@ -326,8 +355,15 @@ impl<'a> FnWeaver<'a> {
         // same through a reference, which the verifier can follow). Drops: the raw-pointer-ness (aliasing, lifetime) -- R3.
         for a in sig.inputs.iter() {
             if let syn::FnArg::Typed(pt) = a {
-                let ty = squeeze(&self.src[lo(pt.ty.span())..hi(pt.ty.span())]);
-                if ty == "*constSelf" {
+                let mut ty = squeeze(&self.src[lo(pt.ty.span())..hi(pt.ty.span())]);
+                // a type alias of the raw self pointer (`type SignalPtr<T> = *const Signal<T>`)
+                let base: String = ty.chars().take_while(|c| c.is_alphanumeric() || *c == '_').collect();
+                if let Some(rhs) = self.unit.aliases.get(&base) {
+                    ty = rhs.clone();
+                }
+                let owner = self.func.split("::").next().unwrap_or("").to_string();
+                let self_ptr = ty == "*constSelf" || (!owner.is_empty() && (ty == format!("*const{}", owner) || ty.starts_with(&format!("*const{}<", owner))));
+                if self_ptr {
                     self.rewrite("X11", lo(pt.ty.span()), hi(pt.ty.span()), "&Self".into());
                 }
             }
@@ -566,6 +602,12 @@ impl<'a> FnWeaver<'a> {
         impl<'x, 'a, 'ast> Visit<'ast> for B<'x, 'a> {
             fn visit_local(&mut self, l: &'ast syn::Local) {
                 if let Some(init) = &l.init {
+                    // `let Some(mut g) = try_acquire_internal(..) else { .. };`
+                    if init.diverge.is_some() && self.w.is_try_guard_call(&init.expr) {
+                        if let Some(n) = some_pat_ident(&l.pat) {
+                            self.w.guards.push(n);
+                        }
+                    }
                     let name = match &l.pat {
                         syn::Pat::Ident(pi) => Some(pi.ident.to_string()),
                         syn::Pat::Type(pt) => match &*pt.pat {
@@ -578,7 +620,7 @@ impl<'a> FnWeaver<'a> {
                         if self.w.is_guard_call(&init.expr) {
                             self.w.guards.push(name.clone());
                         }
-                        let txt = squeeze(&self.w.src[lo(init.expr.span())..hi(init.expr.span())]);
+                        let txt = squeeze_nt(&self.w.src[lo(init.expr.span())..hi(init.expr.span())]);
                         let binds = self.w.c.binds.clone();
                         for (bi, b) in binds.iter().enumerate() {
                             let m = match b.how.as_str() {
@@ -820,6 +862,14 @@ impl<'a> FnWeaver<'a> {
             },
             _ => None,
         };
+        if let (Some(init), true) = (&l.init, self.has_fx) {
+            if init.diverge.is_some() && self.is_try_guard_call(&init.expr) {
+                if let Some(n) = some_pat_ident(&l.pat) {
+                    out.push(ScopeOb { text: self.guard_release_text(&n), watch: Some(n), force_wrap: false });
+                    return out;
+                }
+            }
+        }
         let (name, init) = match (name, &l.init) {
             (Some(n), Some(i)) => (n, i),
             _ => return out,
@@ -863,7 +913,7 @@ impl<'a> FnWeaver<'a> {
             Some(i) => i,
             None => return false,
         };
-        let txt = squeeze(&self.src[lo(init.expr.span())..hi(init.expr.span())]);
+        let txt = squeeze_nt(&self.src[lo(init.expr.span())..hi(init.expr.span())]);
         match b.how.as_str() {
             "let-init-prefix" => txt.starts_with(&b.pat),
             "let-init-suffix" => txt.ends_with(&b.pat),
@@ -1042,18 +1092,24 @@ struct PassA<'x, 'a> {
 }
 
 impl<'x, 'a> PassA<'x, 'a> {
-    fn fx_arg(&mut self, name: &str, nargs: usize, close: usize, trailing: bool) {
+    fn fx_arg(&mut self, name: &str, nargs: usize, close: usize, trailing: bool) -> bool {
         self.fx_arg2(name, nargs, close, trailing, false)
     }
-    fn fx_arg2(&mut self, name: &str, nargs: usize, close: usize, trailing: bool, on_self: bool) {
+    fn fx_arg2(&mut self, name: &str, nargs: usize, close: usize, trailing: bool, on_self: bool) -> bool {
+        self.fx_arg3(name, nargs, nargs, close, trailing, on_self)
+    }
+    /// `arity`: number of non-self arguments the callee is declared with; `nargs`: arguments written at this call
+    fn fx_arg3(&mut self, name: &str, arity: usize, nargs: usize, close: usize, trailing: bool, on_self: bool) -> bool {
         if !self.w.has_fx {
-            return;
+            return false;
         }
-        let self_fx = on_self && self.w.self_fx.iter().any(|(n, a)| n == name && *a == nargs);
-        if self_fx || self.w.unit.fxcalls.iter().any(|(n, a)| n == name && *a == nargs) {
+        let self_fx = on_self && self.w.self_fx.iter().any(|(n, a)| n == name && *a == arity);
+        if self_fx || self.w.unit.fxcalls.iter().any(|(n, a)| n == name && *a == arity) {
             let t = if nargs > 0 && !trailing { ", Tracked(fx)" } else { "Tracked(fx)" };
             self.w.ghost(close, t.to_string(), 0);
+            return true;
         }
+        false
     }
     fn call_hints(&mut self, name: &str, start: usize, end: usize) {
         let cnt = {
@@ -1061,11 +1117,22 @@ impl<'x, 'a> PassA<'x, 'a> {
             *c += 1;
             *c
         };
+        for (names, cl) in self.w.c.before_each.clone().iter() {
+            if names.iter().any(|n| n == name) {
+                let t = self.w.clause_text(cl, "before-call");
+                let k = self.w.src[..start].rfind(|ch| ch == ';' || ch == '{' || ch == '}').map(|k| k + 1).unwrap_or(start);
+                self.w.ghost(k, format!("\n assert({});\n", t), 8);
+            }
+        }
         let hints = self.w.c.hints.clone();
         for h in hints.iter() {
             let ws: Vec<&str> = h.anchor.split_whitespace().collect();
             if ws.len() == 3 && ws[1] == name && ws[2].parse::<usize>().ok() == Some(cnt) {
                 let t = self.w.subst(&h.text);
+                if let Some(ph) = unresolved_placeholder(&t) {
+                    eprintln!("KWEAVE-NOTE: {}: hint `{}` dropped: placeholder {} has no binding in the current text", self.w.func, h.anchor, ph);
+                    continue;
+                }
                 match ws[0] {
                     "before-call" => self.w.ghost(start, format!(" {} ", t), -1),
                     "after-call" => self.w.ghost(end, format!(" {} ", t), 8),
@@ -1094,6 +1161,10 @@ impl<'x, 'a> PassA<'x, 'a> {
         let mut out = String::new();
         let mut last_kw = String::new();
         for (kw, cl) in ls.clauses.iter() {
+            if let Some(ph) = unresolved_placeholder(&self.w.subst(&cl.text)) {
+                eprintln!("KWEAVE-NOTE: {}: loop {} {} clause dropped: placeholder {} has no binding in the current text", self.w.func, ord, kw, ph);
+                continue;
+            }
             if kw == "decreases" {
                 out.push_str(&format!("\n    decreases {}\n", self.w.subst(&cl.text)));
                 last_kw.clear();
@@ -1108,6 +1179,28 @@ impl<'x, 'a> PassA<'x, 'a> {
         }
         out
     }
+}
+
+/// `$idx` / `$elem` / `$coll` are bound by the loop shape (X1, or an index `while`); a contract clause that still
+/// carries one after substitution has lost its anchor
+fn unresolved_placeholder(t: &str) -> Option<&'static str> {
+    ["$idx", "$elem", "$coll"].into_iter().find(|p| t.contains(p))
+}
+
+/// `while I < C.len()`: (I, C)
+fn index_loop_head(cond: &syn::Expr, src: &str) -> Option<(String, String)> {
+    if let syn::Expr::Binary(b) = cond {
+        if matches!(b.op, syn::BinOp::Lt(_)) {
+            if let (syn::Expr::Path(l), syn::Expr::MethodCall(m)) = (&*b.left, &*b.right) {
+                if m.method == "len" && m.args.is_empty() {
+                    if let Some(i) = l.path.get_ident() {
+                        return Some((i.to_string(), src[lo(m.receiver.span())..hi(m.receiver.span())].to_string()));
+                    }
+                }
+            }
+        }
+    }
+    None
 }
 
 fn contains_break_continue(b: &syn::Block) -> bool {
@@ -1153,6 +1246,25 @@ impl<'x, 'a, 'ast> Visit<'ast> for PassA<'x, 'a> {
                         }
                     }
                 }
+                // X11: a raw signal pointer kept in a rewritten field is passed on as a reference
+                for a in c.args.iter() {
+                    let at: String = self.w.src[lo(a.span())..hi(a.span())].chars().filter(|c| !c.is_whitespace()).collect();
+                    if self.w.unit.x11_args.contains(&at) {
+                        let t = format!("{}.as_ref()", &self.w.src[lo(a.span())..hi(a.span())]);
+                        self.w.rewrite("X11", lo(a.span()), hi(a.span()), t);
+                    }
+                }
+                // X13: core::ptr::drop_in_place(M.as_mut_ptr()) -> M.assume_init_drop()   (std defines assume_init_drop as
+                // exactly this; the raw-pointer spelling is unreadable for Verus)
+                if seg.ident == "drop_in_place" && c.args.len() == 1 {
+                    if let syn::Expr::MethodCall(m) = &c.args[0] {
+                        if m.method == "as_mut_ptr" && m.args.is_empty() {
+                            let recv = self.w.src[lo(m.receiver.span())..hi(m.receiver.span())].to_string();
+                            self.w.rewrite("X13", lo(c.span()), hi(c.span()), format!("{}.assume_init_drop()", recv));
+                            return;
+                        }
+                    }
+                }
                 // X10: core::ptr::read[::<T>](P) -> raw_ptr_read(P)   (raw-pointer read, unreadable for Verus; the
                 // pointer comes from MaybeUninit::as_ptr, whose stand-in specification says what is behind it)
                 if seg.ident == "read" && c.args.len() == 1 {
@@ -1169,11 +1281,56 @@ impl<'x, 'a, 'ast> Visit<'ast> for PassA<'x, 'a> {
                 if ptxt == "Box::pin" {
                     self.w.rewrite("X3", lo(p.span()), hi(p.span()), "PinBox::new".into());
                 }
-                self.fx_arg(&name, c.args.len(), lo(c.paren_token.span.close()), c.args.trailing_punct());
+                if !self.fx_arg(&name, c.args.len(), lo(c.paren_token.span.close()), c.args.trailing_punct()) {
+                    // fully qualified method call `Type::method(receiver, args..)`: the receiver is written as an argument
+                    let n = p.path.segments.len();
+                    if n >= 2 && !c.args.is_empty() {
+                        let q = p.path.segments[n - 2].ident.to_string();
+                        if q.chars().next().map(|ch| ch.is_uppercase()).unwrap_or(false) {
+                            let on_self = matches!(&c.args[0], syn::Expr::Path(a) if a.path.is_ident("self"));
+                            self.fx_arg3(&name, c.args.len() - 1, c.args.len(), lo(c.paren_token.span.close()), c.args.trailing_punct(), on_self);
+                        }
+                    }
+                }
                 self.call_hints(&name, lo(c.span()), hi(c.span()));
             }
         }
         syn::visit::visit_expr_call(self, c);
+    }
+    fn visit_item_const(&mut self, c: &'ast syn::ItemConst) {
+        // a function-local constant whose initialiser calls a function cannot be evaluated by the verifier: opaque
+        struct HasCall(bool);
+        impl<'a2> Visit<'a2> for HasCall {
+            fn visit_expr_call(&mut self, _: &'a2 syn::ExprCall) {
+                self.0 = true;
+            }
+            fn visit_expr_method_call(&mut self, _: &'a2 syn::ExprMethodCall) {
+                self.0 = true;
+            }
+        }
+        let mut v = HasCall(false);
+        v.visit_expr(&c.expr);
+        if v.0 {
+            self.w.ghost(lo(c.const_token.span()), "#[verifier::external_body] ".into(), 0);
+        }
+    }
+    fn visit_expr_unary(&mut self, u: &'ast syn::ExprUnary) {
+        // X11: `*<raw signal pointer field>` -> `*<field>.as_ref()`
+        if matches!(u.op, syn::UnOp::Deref(_)) {
+            let at: String = self.w.src[lo(u.expr.span())..hi(u.expr.span())].chars().filter(|c| !c.is_whitespace()).collect();
+            if self.w.unit.x11_args.contains(&at) {
+                let t = format!("{}.as_ref()", &self.w.src[lo(u.expr.span())..hi(u.expr.span())]);
+                self.w.rewrite("X11", lo(u.expr.span()), hi(u.expr.span()), t);
+            }
+        }
+        syn::visit::visit_expr_unary(self, u);
+    }
+    fn visit_expr_assign(&mut self, a: &'ast syn::ExprAssign) {
+        // X14: `_ = E;` -> `let _ = E;` (both evaluate E and drop the result at once; Verus has no destructuring assignment)
+        if matches!(&*a.left, syn::Expr::Infer(_)) {
+            self.w.rewrite("X14", lo(a.left.span()), hi(a.left.span()), "let _".into());
+        }
+        syn::visit::visit_expr_assign(self, a);
     }
     fn visit_expr_closure(&mut self, c: &'ast syn::ExprClosure) {
         self.w.closure_ord += 1;
@@ -1229,6 +1386,13 @@ impl<'x, 'a, 'ast> Visit<'ast> for PassA<'x, 'a> {
                 }
                 Some(false) => fatal(&format!("{}: once-true: `while {}()` is not supported", self.w.func, name)),
                 None => {}
+            }
+        }
+        // the hand-written form of X1's result: `while i < C.len() { .. C[i] .. i += 1; }`
+        if !self.w.binds.contains_key("$idx") {
+            if let Some((i, c)) = index_loop_head(&e.cond, self.w.src) {
+                self.w.binds.insert("$idx".into(), i);
+                self.w.binds.insert("$coll".into(), c);
             }
         }
         let spec = self.loop_spec(ord);
